@@ -86,8 +86,8 @@ def gen_plan(seed, tier):
         "garbage": rng.random() < 0.5,
         "gitlinks": rng.random() < 0.2,
         "big": rng.random() < 0.3,
-        "depth": rng.choice([None, None, None, None, 1, 2]) if op != "push"
-        else None,
+        "depth": rng.choice([None, None, None, None, 1, 2, 2, 3, 4])
+        if op != "push" else None,
         # the in-repo upload-pack *requires* side-band-64k, thin-pack and
         # ofs-delta from its clients, so only the negotiation modes vary
         "client_drop": rng.sample(["multi_ack", "multi_ack_detailed"],
@@ -132,7 +132,9 @@ def gen_plan(seed, tier):
             0.6 if plan["depth"] else 0.25):
         plan["second"] = {"grow": rng.randint(1, 3),
                           "side": rng.random() < 0.7,
-                          "depth": rng.choice([None, None, None, 1, 3])}
+                          # 2**31-1 is how a client asks to unshallow
+                          "depth": rng.choice([None, None, None, 1, 3,
+                                               2147483647, 2147483647])}
     if (plan["depth"] or plan["second"]) and "shallow" in plan["server_drop"]:
         # a depth request against a server without 'shallow' is refused by
         # the client up front; nothing to observe
